@@ -11,7 +11,11 @@ package wrkchain
 //@   props C15
 //@   pure
 //@   requires wrkHighestSet(wrk_store) ==> len(wrk_store[kHighest]) == 8
+//@   requires forall i int, h int :: {wrk_store[kBlock(i, h)]} blkHas(wrk_store, i, h) ==> 0 <= h && h < 2^64 && blkGet(wrk_store, i, h).Height == h
 //@   let recs := gs.RegisteredWrkchains
+//@   ensures @records_as_stored forall j int, b int :: {recs[j].Blocks[b]} 0 <= j && j < len(recs) && 0 <= b && b < len(recs[j].Blocks) ==> blkHas(wrk_store, recs[j].Wrkchain.WrkchainId, recs[j].Blocks[b].He) && recs[j].Blocks[b] == blkExp(blkGet(wrk_store, recs[j].Wrkchain.WrkchainId, recs[j].Blocks[b].He))
+//@   ensures @records_ascending_and_capped forall j int :: {recs[j]} 0 <= j && j < len(recs) ==> len(recs[j].Blocks) <= 20000 && forall a int, b int :: {recs[j].Blocks[a], recs[j].Blocks[b]} 0 <= a && a < b && b < len(recs[j].Blocks) ==> recs[j].Blocks[a].He < recs[j].Blocks[b].He
+//@   ensures @newest_records_without_gaps forall j int, h uint64 :: {wrk_store[kBlock(recs[j].Wrkchain.WrkchainId, h)]} 0 <= j && j < len(recs) && blkHas(wrk_store, recs[j].Wrkchain.WrkchainId, h) && (len(recs[j].Blocks) < 20000 || h >= recs[j].Blocks[0].He) ==> exists b int :: 0 <= b && b < len(recs[j].Blocks) && recs[j].Blocks[b].He == h
 //@   ensures @counters_match_exported_records forall j int :: {recs[j]} 0 <= j && j < len(recs) ==> recs[j].Wrkchain.NumBlocks == len(recs[j].Blocks) && recs[j].Wrkchain.LowestHeight == (len(recs[j].Blocks) > 0 ? recs[j].Blocks[0].He : 0)
 //@   ensures @limit_as_stored forall j int :: {recs[j]} 0 <= j && j < len(recs) && limHas(wrk_store, recs[j].Wrkchain.WrkchainId) ==> recs[j].InStateLimit == limGet(wrk_store, recs[j].Wrkchain.WrkchainId)
 //@   ensures @params_and_next_id wrkParamsSet(wrk_store) ==> gs.Params == wrkParams(wrk_store)
@@ -20,6 +24,9 @@ package wrkchain
 //@   loop 0: invariant forall j int :: {records[j]} 0 <= j && j < len(records) ==> records[j].Wrkchain.NumBlocks == len(records[j].Blocks) && records[j].Wrkchain.LowestHeight == (len(records[j].Blocks) > 0 ? records[j].Blocks[0].He : 0)
 //@   loop 0: invariant forall j int :: {records[j]} 0 <= j && j < len(records) ==> records[j].Wrkchain.WrkchainId == wrkChains[j].WrkchainId && records[j].Wrkchain.Owner == wrkChains[j].Owner && records[j].Wrkchain.Lastblock == wrkChains[j].Lastblock && records[j].Wrkchain.Moniker == wrkChains[j].Moniker
 //@   loop 0: invariant forall j int :: {records[j]} 0 <= j && j < len(records) && limHas(wrk_store, records[j].Wrkchain.WrkchainId) ==> records[j].InStateLimit == limGet(wrk_store, records[j].Wrkchain.WrkchainId)
+//@   loop 0: invariant forall j int, b int :: {records[j].Blocks[b]} 0 <= j && j < len(records) && 0 <= b && b < len(records[j].Blocks) ==> blkHas(wrk_store, records[j].Wrkchain.WrkchainId, records[j].Blocks[b].He) && records[j].Blocks[b] == blkExp(blkGet(wrk_store, records[j].Wrkchain.WrkchainId, records[j].Blocks[b].He))
+//@   loop 0: invariant forall j int :: {records[j]} 0 <= j && j < len(records) ==> len(records[j].Blocks) <= 20000 && forall a int, b int :: {records[j].Blocks[a], records[j].Blocks[b]} 0 <= a && a < b && b < len(records[j].Blocks) ==> records[j].Blocks[a].He < records[j].Blocks[b].He
+//@   loop 0: invariant forall j int, h uint64 :: {wrk_store[kBlock(records[j].Wrkchain.WrkchainId, h)]} 0 <= j && j < len(records) && blkHas(wrk_store, records[j].Wrkchain.WrkchainId, h) && (len(records[j].Blocks) < 20000 || h >= records[j].Blocks[0].He) ==> exists b int :: 0 <= b && b < len(records[j].Blocks) && records[j].Blocks[b].He == h
 
 // Genesis import (C15): on a store without registrations, limits and records, every registration of the document is
 // stored byte-for-byte as given together with its limit, every listed record is stored under (id, height) of its
